@@ -441,6 +441,14 @@ func c09Strata() []*gast.Grammar {
 		mk(r("S", gast.S(gast.Ref("Item"), gast.Star(gast.S(gast.L(","), gast.Rec(gast.Ref("Item"), gast.Ref("Rc"), "L1"))), gast.NotE(gast.Dot()))),
 			r("Item", act(gast.Plus(gast.Cl(gast.Chars("ab"))), 1)), r("Rc", gast.Star(gast.Cl(&gast.ClassSpec{Chars: []rune(","), Inverted: true})))),
 		mk(r("S", gast.Star(gast.C(gast.Rec(gast.Ref("K"), gast.Ref("K2"), "L1"), gast.S(gast.L("!"), gast.Ref("K"), gast.Ref("K2"))))), r("K", gast.C(gast.L("a"), gast.Thr("L1"))), r("K2", gast.Cl(gast.Chars("xy")))),
+		// a one-letter general category next to a script / property whose name starts with the same
+		// letter (\pL with Lao, \pN with Nko, \pC with Cyrillic, \pL with Latin): written so, merged from
+		// alternatives, and through an inlined leaf rule; plain and inverted
+		mk(r("S", gast.S(gast.Star(gast.C(gast.Cl(&gast.ClassSpec{UClasses: []string{"L", "Lao"}}), gast.L(" "))), gast.NotE(gast.Dot())))),
+		mk(r("S", gast.S(gast.Star(gast.C(gast.Cl(&gast.ClassSpec{UClasses: []string{"L"}}), gast.Cl(&gast.ClassSpec{UClasses: []string{"Lao"}}), gast.L(" "))), gast.Star(gast.Dot())))),
+		mk(r("S", gast.S(gast.Star(gast.C(gast.Ref("W"), gast.Ref("D"), gast.L("_"))), gast.Star(gast.Dot()))), r("W", gast.Cl(&gast.ClassSpec{UClasses: []string{"N"}})), r("D", gast.Cl(&gast.ClassSpec{UClasses: []string{"Nko"}}))),
+		mk(r("S", gast.S(gast.Star(gast.Cl(&gast.ClassSpec{UClasses: []string{"L", "Latin"}, Inverted: true})), gast.Star(gast.Dot()))), r("X", gast.L("ªa1"))),
+		mk(r("S", gast.S(act(gast.Plus(gast.Cl(&gast.ClassSpec{UClasses: []string{"C", "Cyrillic"}, Chars: []rune("-")})), 1), gast.Star(gast.Dot())))),
 		// keyword idiom: literals with and without i next to each other, some without cased characters
 		mk(r("S", gast.S(gast.Li("select"), gast.L(" "), gast.Ref("N"), gast.L(" "), gast.Li("from"), gast.L(" "), gast.Ref("N"), gast.Opt(gast.S(gast.L(" "), gast.Li("order"), gast.Li(" by"), gast.L(" "), gast.Ref("N"))), gast.L(";"))),
 			r("N", gast.Plus(gast.Cl(gast.Chars("ab"))))),
